@@ -19,6 +19,11 @@ KEEP_PROCESS = ['_buffer', 'g_firing', 'id', 'IDLE', 'CONNECTING', 'CONNECTED', 
                 'windowUnsubscribe', '_window', '_initialT', '_bandwith', '_factor', '_version', '_cleanStart',
                 'onPublish', 'onDisconnection', 'onMqttConnectionMade', 'pdu', 'tr_closes']
 
+KEEP_RECV = ['g_firing', 'id', 'IDLE', 'CONNECTING', 'CONNECTED', 'protocol', 'factory', 'addr', 'transport',
+             '_pingReq', 'queuePublishTx', 'windowPublish', 'windowPubRelease', 'windowPubRx', 'windowSubscribe',
+             'windowUnsubscribe', '_window', '_initialT', '_bandwith', '_factor', '_version', '_cleanStart',
+             'onPublish', 'onDisconnection', 'onMqttConnectionMade', 'pdu', 'tr_closes']
+
 
 @contract('mqtt.pdu.PUBLISH.decode', props=['C16', 'C06'])
 def _(self: Ref['mqtt.pdu.PUBLISH'], packet: Bytes):
